@@ -3,6 +3,7 @@
 package main
 
 import (
+	aptypes "github.com/elys-network/elys/x/assetprofile/types"
 	"bufio"
 	"crypto/sha256"
 	"encoding/json"
@@ -230,6 +231,12 @@ func (c *Chain) buildMsg(mt msgType, who string, ctx sdk.Context) (m sdk.Msg, er
 		}
 		c.fill(v.Field(i), pn, 0)
 	}
+	// asset-profile messages name the listing the "user" sender class created itself through the permissionless MsgAddEntry
+	if c.OwnDenom != "" && strings.Contains(mt.URL, "assetprofile") {
+		if f := v.FieldByName("BaseDenom"); f.IsValid() && f.Kind() == reflect.String {
+			f.SetString(c.OwnDenom)
+		}
+	}
 	return pm.(sdk.Msg), nil
 }
 
@@ -274,6 +281,11 @@ func cmdAuthority(args []string) {
 	// sender then is that very account
 	actx := c.AdminCtx()
 	c.App.TokenomicsKeeper.SetAirdrop(actx, tokenomicstypes.Airdrop{Intent: c.Addr["u2"].String(), Authority: c.Addr["u2"].String(), Amount: 1000, Expiry: uint64(actx.BlockTime().Unix()) + 1_000_000})
+	// a record the "user" sender class created itself through a real permissionless message: an asset-profile listing
+	if _, err := c.Admin(&aptypes.MsgAddEntry{Creator: c.Addr["u2"].String(), BaseDenom: "uverif", Denom: "uverif", Decimals: 6, DisplayName: "VERIF",
+		DisplaySymbol: "VERIF", CommitEnabled: true, WithdrawEnabled: true}); err == nil {
+		c.OwnDenom = "uverif"
+	}
 	types := c.elysMsgTypes()
 	if *list != "" {
 		bz, _ := json.Marshal(types)
